@@ -639,9 +639,9 @@ fn strip_csi(l: &[u8]) -> Vec<u8> {
 /// A line of the shape main.rs's `message()` prints: a word right-aligned in 12 columns, a space,
 /// then text.
 pub fn is_status_line(l: &[u8]) -> bool {
-    let pad = l.iter().take_while(|b| **b == b' ').count();
-    let word = l[pad..].iter().take_while(|b| b.is_ascii_alphabetic() || **b == b'-').count();
-    word > 0 && l.get(pad + word) == Some(&b' ') && (pad + word == 12 || (pad == 0 && word > 12))
+    // `{left:>12} {right}` starts with padding whenever `left` is shorter than 12 characters,
+    // whatever the words are
+    l.first() == Some(&b' ') && l.iter().any(|b| !b.is_ascii_whitespace())
 }
 
 fn obs_c07(dir: &Path, src: &str, stack: bool) -> String {
@@ -974,13 +974,42 @@ fn watch_session(dir: &Path, sources: &[Vec<u8>], stack: u8, same_stat: bool) ->
     while start.elapsed() < Duration::from_millis(5000) {
         let b = buf.lock().unwrap().clone();
         if let Some(i) = after_clear(&b) {
-            if b[i..].split(|c| *c == b'\n').filter(|l| is_status_line(strip_csi(l).as_slice())).count() >= 2 {
+            if b[i..].split(|c| *c == b'\n').filter(|l| !strip_csi(l).iter().all(|c| c.is_ascii_whitespace())).count() >= 2 {
                 break;
             }
         }
         std::thread::sleep(Duration::from_millis(20));
     }
     std::thread::sleep(Duration::from_millis(300));
+    // calibration: one save of a text that certainly assembles; the last non-blank line of what the
+    // re-check prints is this build's "success" line, whatever its wording
+    let last_line = |seg: &[u8]| -> Vec<u8> {
+        seg.split(|c| *c == b'\n').map(strip_csi).filter(|l| !l.iter().all(|c| c.is_ascii_whitespace())).last().unwrap_or_default()
+    };
+    let success_line: Vec<u8> = {
+        let mark = buf.lock().unwrap().len();
+        std::fs::write(&file, "halt\n\n").unwrap();
+        let t0 = Instant::now();
+        let mut last_len = mark;
+        let mut quiet_since = Instant::now();
+        loop {
+            std::thread::sleep(Duration::from_millis(40));
+            let len = buf.lock().unwrap().len();
+            if len != last_len {
+                last_len = len;
+                quiet_since = Instant::now();
+            }
+            let seen = after_clear(&buf.lock().unwrap()[mark..]).is_some();
+            if (seen && quiet_since.elapsed() > Duration::from_millis(700)) || t0.elapsed() > Duration::from_millis(5000) {
+                break;
+            }
+        }
+        let seg: Vec<u8> = buf.lock().unwrap()[mark..].to_vec();
+        match after_clear(&seg) {
+            Some(i) => last_line(&seg[i + CLEAR.len()..]),
+            None => Vec::new(),
+        }
+    };
     let mut verdicts = Vec::new();
     // (text, what its re-check printed): saving the same text again must print the same again
     let mut prev: Option<(Vec<u8>, Vec<u8>)> = None;
@@ -1032,10 +1061,9 @@ fn watch_session(dir: &Path, sources: &[Vec<u8>], stack: u8, same_stat: bool) ->
                 let tail = &seg[i + CLEAR.len()..];
                 // success = the output ends with a status line beyond the three banner lines
                 // (warnings may stand in between); anything else that is not blank = a diagnostic
-                let lines: Vec<Vec<u8>> = tail.split(|c| *c == b'\n').map(strip_csi).filter(|l| !l.iter().all(|c| c.is_ascii_whitespace())).collect();
-                let n_status = lines.iter().filter(|l| is_status_line(l)).count();
-                let ends_with_status = lines.last().map(|l| is_status_line(l)).unwrap_or(false);
-                let diag = !(ends_with_status && n_status >= 4);
+                // success = the re-check's output ends with this build's success line (learnt from
+                // the calibration save); anything else = a diagnostic
+                let diag = success_line.is_empty() || last_line(tail) != success_line;
                 let this = (src.clone(), tail.to_vec());
                 let unstable = matches!(&prev, Some(p) if p.0 == this.0 && p.1 != this.1);
                 prev = Some(this);
